@@ -151,7 +151,7 @@ def make_value(kind, root, nodes, j, v):
 # ---- operation surface -------------------------------------------------------------------
 
 LIST_OPS = ['setitem', 'delitem', 'insert', 'append', 'extend', 'pop', 'remove', 'clear', 'reverse', 'sort_key',
-            'set_slice', 'del_slice', 'iadd', 'rebind_idx', 'rebind_insert', 'rebind_missing', 'rebind_multi']
+            'set_slice', 'del_slice', 'del_slice_neg', 'iadd', 'rebind_idx', 'rebind_insert', 'rebind_missing', 'rebind_multi', 'rebind_multi_far']
 DICT_OPS = ['setitem', 'setattr', 'delitem', 'delattr', 'pop', 'popitem', 'clear', 'update', 'setdefault', 'ior',
             'rebind_key', 'rebind_kwargs', 'rebind_missing', 'rebind_fn']
 OBJ_OPS = ['setattr', 'rebind_key', 'rebind_kwargs', 'rebind_fn', 'delattr']
@@ -245,6 +245,11 @@ def apply_op(op, root, nodes, t, i, val, v2=0):
       if not 0 <= i <= n:
         raise Assume()
       del node[i:i + 2]
+    elif op == 'del_slice_neg':
+      # backward slices: from index i down to the start, every element (i even) or every second one (i odd)
+      if not 0 <= i <= n:
+        raise Assume()
+      del node[i::-1 if i % 2 == 0 else -2]
     elif op == 'iadd':
       node += [val]
       out['rebound'] = node
@@ -265,6 +270,12 @@ def apply_op(op, root, nodes, t, i, val, v2=0):
         raise Assume()
       j = (i + 1) % n
       node.rebind({i: pg.Insertion(val), j: pg.MISSING_VALUE} if i != j else {i: val})
+    elif op == 'rebind_multi_far':
+      # insertion and deletion two positions apart in one call (the elements in between shift, the tail stays in place)
+      if not (0 <= i < n and n >= 4):
+        raise Assume()
+      j = (i + 2) % n
+      node.rebind({i: pg.Insertion(val), j: pg.MISSING_VALUE})
     return out
   if isinstance(node, pg.Dict):
     keys = list(node.sym_keys())
@@ -344,6 +355,22 @@ def applicable(op, node, t):
   if isinstance(node, pg.Object):
     return op in OBJ_OPS
   return False
+
+
+def op_fits(op, skel):
+  """Shard-level cut: operations that need a list of >= 4 elements only run on the skeleton that has one."""
+  return op != 'rebind_multi_far' or skel == 'flat'
+
+
+def snap(x):
+  """Structural snapshot of a tree (also for values to_json cannot serialize: pg.Ref, inferred placeholders)."""
+  if isinstance(x, pg.Ref):
+    return ('ref', id(x.value))
+  if isinstance(x, pg.Symbolic):
+    return (type(x).__name__, [(k, snap(x.sym_getattr(k))) for k in x.sym_keys()])
+  if isinstance(x, tuple):
+    return tuple(snap(e) for e in x)
+  return x
 
 
 def fanout(node):
